@@ -243,6 +243,10 @@ type WriterPlan struct {
 	// Capacity: the device is a fixed-size buffer of FailAt bytes: a Write that does not fit
 	// entirely is refused (nothing taken), a later, smaller Write that still fits is accepted
 	Capacity bool
+	// Chunk > 0: a healthy device that takes at most Chunk bytes per call; a larger Write
+	// is cut short and reported as (Chunk, io.ErrShortWrite) - the legal way to say so -
+	// and the rest is taken if it is offered again (a rate limiter, a non-blocking transport)
+	Chunk int
 }
 
 // SimWriter records everything it accepts.
@@ -257,6 +261,8 @@ type SimWriter struct {
 	CallsAfterFail int
 	UsedReadFrom   bool
 	FailedOnce     bool   // a transient failure was delivered
+	Chunked        int    // Chunk mode: writes cut short
+	CallsAfterChunk int   // Chunk mode: calls after the first write that was cut short
 	Refused        int    // Capacity mode: writes refused because they did not fit
 	AcceptedAfterRefusal int // Capacity mode: bytes taken after the first refusal
 	OnCall         func() // scheduler yield hook
@@ -292,6 +298,15 @@ func (w *SimWriter) Write(p []byte) (int, error) {
 	}
 	if len(p) == 0 {
 		return 0, nil // zero-length writes succeed even on a full device
+	}
+	if w.Chunked > 0 {
+		w.CallsAfterChunk++
+	}
+	if w.plan.Chunk > 0 && len(p) > w.plan.Chunk {
+		w.Chunked++
+		w.c.Fault("write-cut-short-by-a-healthy-device")
+		w.Accepted = append(w.Accepted, p[:w.plan.Chunk]...)
+		return w.plan.Chunk, io.ErrShortWrite
 	}
 	if w.plan.Capacity && w.plan.FailAt >= 0 {
 		if len(w.Accepted)+len(p) > w.plan.FailAt {
